@@ -15,7 +15,9 @@ import JoblibModel.IOUtil
 * `reduce <a.ptr> <a.shape> <a.strides> <a.itemsize> <m.ptr> <m.shape> <m.strides> <m.itemsize> <m.offset> <a_c> <a_f>`
       → `offset=<o> order=<C|F> strides=<list|None> tbl=<n|None> maps=<bytes of the byte buffer|->`
 * `elem <…same 11 fields…> <idx>` → `rebuilt=<file offset> original=<file offset>`
-* `forward <type is ndarray/memmap 0|1> <backed 0|1> <hasobject 0|1> <max_nbytes|-> <nbytes>` → `reuse-backing` | `dump-and-memmap` | `plain-pickle`
+* `forward <type is ndarray/memmap 0|1> <backed 0|1> <hasobject 0|1> <max_nbytes|-> <nbytes> <none|mode>` → `reuse-backing` | `dump-and-memmap` | `plain-pickle`
+  (`none`: `mmap_mode is None`)
+* `history <ctx>:<obj>:<vals>,…` (dispatches of dumped-and-memmapped arguments, in order) → `<seen>,…`
 * `tables` → the generated constants
 Anything else → `bad-op`. -/
 open JoblibModel JoblibModel.ArrayFormat JoblibModel.Generated JoblibModel.IOUtil
@@ -31,6 +33,18 @@ def intList? (s : String) : Option (List Int) :=
 
 def bool? (s : String) : Option Bool :=
   if s = "1" then some true else if s = "0" then some false else none
+
+def modeNone? (s : String) : Option Bool :=
+  if s = "none" then some true else if s = "mode" then some false else none
+
+def dispatch? (s : String) : Option Dispatch :=
+  match s.splitOn ":" with
+  | [c, o, v] => do
+    let c ← c.toNat?
+    let o ← o.toNat?
+    let v ← v.toNat?
+    pure ⟨c, o, v⟩
+  | _ => none
 
 def hexVal (c : Char) : Option Nat :=
   if '0' ≤ c ∧ c ≤ '9' then some (c.toNat - '0'.toNat)
@@ -158,14 +172,18 @@ def handle (line : String) : String :=
             ++ " original=" ++ toString (originalElemOffset a m mo idx)
       | none => "bad-op"
     | _, _ => "bad-op"
-  | ["forward", rt, bk, ho, mx, nb] =>
-    match bool? rt, bool? bk, bool? ho, optNat? mx, nb.toNat? with
-    | some rt, some bk, some ho, some mx, some nb =>
-      (match forwardReduce rt bk ho mx nb with
+  | ["forward", rt, bk, ho, mx, nb, md] =>
+    match bool? rt, bool? bk, bool? ho, optNat? mx, nb.toNat?, modeNone? md with
+    | some rt, some bk, some ho, some mx, some nb, some md =>
+      (match forwardReduce rt bk ho mx nb md with
        | .reuseBacking => "reuse-backing"
        | .dumpAndMemmap => "dump-and-memmap"
        | .plainPickle => "plain-pickle")
-    | _, _, _, _, _ => "bad-op"
+    | _, _, _, _, _, _ => "bad-op"
+  | ["history", ds] =>
+    match (ds.splitOn ",").mapM dispatch? with
+    | some h => ",".intercalate ((runHistory [] h).map toString)
+    | none => "bad-op"
   | ["tables"] =>
     "tables align=" ++ toString numpyArrayAlignmentBytes ++ " buffer=" ++ toString bufferSize
       ++ " pad=" ++ toString padValue
